@@ -11,6 +11,14 @@ EXTENDS Integers, Sequences, FiniteSets, TLC, Json, IOUtils
 
 Rec == ndJsonDeserialize(IOEnv.TRACE)
 
+\* KeepLedger = FALSE is for one very long session (more chunks than the VMess counter has values): the ledger of
+\* (key, nonce) pairs is then not kept as a set - uniqueness below the wrap follows from the counter rule, which is
+\* checked for every unit - so that the state stays small.
+CONSTANT KeepLedger
+\* the VMess chunk counter is 16 bits wide and wraps to 0 (the protocol's own width: v2ray's uint16 count); every other
+\* counter of these protocols is wider than any run
+Modulus(fmt) == IF fmt = "vmess-stream" THEN 65536 ELSE 2147483647
+
 VARIABLES used,      \* ledger of <<key, nonce>>
           fresh,     \* fresh values seen, per kind: set of <<what, id>>
           ctr,       \* function key -> next expected counter, for the keys of the current session
@@ -46,15 +54,18 @@ Unit ==
   /\ l <= Len(Rec) /\ Rec[l].ev = "Unit"
   /\ LET u == Rec[l]
          k == u.key
-         expect == IF k \in DOMAIN ctr THEN ctr[k] ELSE 0
+         steps == IF k \in DOMAIN ctr THEN ctr[k] ELSE 0
+         expect == steps % Modulus(sess.fmt)
      IN /\ Follows(sess.fmt, prev, u.kind)
         /\ u.plain <= sess.limit \/ u.kind \notin {"pay", "var"}       \* sender limit
         /\ IF u.counted
              THEN /\ u.nonce = expect                                  \* CountersAdvance: 0, 1, 2, ...
-                  /\ ctr' = [x \in (DOMAIN ctr) \cup {k} |-> IF x = k THEN expect + 1 ELSE ctr[x]]
+                  /\ ctr' = [x \in (DOMAIN ctr) \cup {k} |-> IF x = k THEN steps + 1 ELSE ctr[x]]
              ELSE UNCHANGED ctr
-        /\ <<k, u.nonce>> \notin used                                   \* NoReuse
-        /\ used' = used \cup {<<k, u.nonce>>}
+        /\ IF KeepLedger
+             THEN /\ (<<k, u.nonce>> \notin used \/ (u.counted /\ steps >= Modulus(sess.fmt)))   \* NoReuse (a wrapped counter is the protocol's)
+                  /\ used' = used \cup {<<k, u.nonce>>}
+             ELSE UNCHANGED used
         /\ prev' = u.kind
   /\ UNCHANGED <<fresh, sess>> /\ l' = l + 1
 
